@@ -47,7 +47,27 @@ pub fn req_meaning(s: &ReqSpec) -> Option<ReqM> {
     })
 }
 
+/// reference decoding of a response PDU (register and coil reads only): what the bytes mean by the specification
+fn ref_rsp_decode(b: &[u8]) -> Option<RspM> {
+    if b.len() < 2 {
+        return None;
+    }
+    let bc = b[1] as usize;
+    if b.len() < 2 + bc {
+        return None;
+    }
+    let d = &b[2..2 + bc];
+    match b[0] {
+        1 | 2 => Some(RspM::Coils(b[0], (0..bc * 8).map(|i| (d[i / 8] >> (i % 8)) & 1 == 1).collect())),
+        3 | 4 | 0x17 => Some(RspM::Regs(b[0], (0..bc / 2).map(|i| (d[2 * i] as u16) * 256 + d[2 * i + 1] as u16).collect())),
+        _ => None,
+    }
+}
+
 pub fn rsp_meaning(s: &PduSpec) -> Option<RspM> {
+    if let PduSpec::Rsp(RspSpec::Dec(b)) = s {
+        return ref_rsp_decode(b);
+    }
     Some(match s {
         PduSpec::Exc(_, b, k) => RspM::Exc(*b, exc_of_idx(*k)? as u8),
         PduSpec::Rsp(r) => match r {
